@@ -7,6 +7,9 @@
 void _skinny128_parallel_encrypt_vec128(void *output, const void *input, const Skinny128Key_t *ks);
 void _skinny128_parallel_encrypt_vec256(void *output, const void *input, const Skinny128Key_t *ks);
 void _skinny64_parallel_encrypt_vec128(void *output, const void *input, const Skinny64Key_t *ks);
+void _skinny128_parallel_decrypt_vec128(void *output, const void *input, const Skinny128Key_t *ks);
+void _skinny128_parallel_decrypt_vec256(void *output, const void *input, const Skinny128Key_t *ks);
+void _skinny64_parallel_decrypt_vec128(void *output, const void *input, const Skinny64Key_t *ks);
 void _mantis_parallel_crypt_vec128(void *output, const void *input, const void *tweak, const MantisKey_t *ks);
 
 const char *cipher_name(Cipher c)
@@ -208,20 +211,21 @@ void par_swap_modes(ParObj *o)
 int par_backend(Cipher c, const ParObj *o)
 {
     const void *v = o->raw.vtable;
-    void *fn;
+    void *fn, *fn2;
     if (!v) return BE_GEN;       /* the parallel objects use a null vtable for "no SIMD" */
     {
         extern char __executable_start[], _end[];
         if (!((const char *)v >= __executable_start && (const char *)v < _end)) return -2;
     }
     memcpy(&fn, v, sizeof(fn));
+    memcpy(&fn2, (const char *)v + sizeof(fn), sizeof(fn2));      /* the Skinny tables have a second slot: decrypt */
     switch (c) {
     case CK_S128:
-        if (fn == (void *)_skinny128_parallel_encrypt_vec128) return BE_V128;
-        if (fn == (void *)_skinny128_parallel_encrypt_vec256) return BE_V256;
+        if (fn == (void *)_skinny128_parallel_encrypt_vec128) return fn2 == (void *)_skinny128_parallel_decrypt_vec128 ? BE_V128 : -3;
+        if (fn == (void *)_skinny128_parallel_encrypt_vec256) return fn2 == (void *)_skinny128_parallel_decrypt_vec256 ? BE_V256 : -3;
         break;
     case CK_S64:
-        if (fn == (void *)_skinny64_parallel_encrypt_vec128) return BE_V128;
+        if (fn == (void *)_skinny64_parallel_encrypt_vec128) return fn2 == (void *)_skinny64_parallel_decrypt_vec128 ? BE_V128 : -3;
         break;
     case CK_MANTIS:
         if (fn == (void *)_mantis_parallel_crypt_vec128) return BE_V128;
